@@ -501,6 +501,15 @@ func InstallTypesModels(m *interp.Machine, prog *load.Program) {
 			return &interp.Unknown{Why: kind + "." + name + " on " + interp.Show(recv)}, nil
 		}
 	}
+	// nil-safe length methods of go/types lists (a nil *TypeList has length 0)
+	for _, k := range []string{"TypeList", "TypeParamList", "Tuple"} {
+		m.Ext["(*go/types."+k+").Len"] = func(m *interp.Machine, pos token.Pos, recv interp.Value, args []interp.Value) (interp.Value, error) {
+			if _, isNil := recv.(interp.NilV); isNil {
+				return int64(0), nil
+			}
+			return &interp.Unknown{Why: "Len of " + interp.Show(recv)}, nil
+		}
+	}
 	m.Ext["(*go/types.Package).Path"] = attr("types.Package", "path")
 	m.Ext["(*go/types.Package).Name"] = attr("types.Package", "name")
 	m.Ext["(*go/types.Var).Type"] = attr("types.Var", "type")
